@@ -1,16 +1,19 @@
 """C06 - the recipe model is referentially consistent.
-Theorems: coq/Properties/C06.v (Inv of Model/AnalysisSpec.v holds initially, is preserved by every event a
+Theorems: coq/Properties/C06.v (the quantities of the tables are those of the events, value included:
+C06_*_value, C06_values_from_events; Inv of Model/AnalysisSpec.v holds initially, is preserved by every event a
 parser-shaped stream can contain, hence recipe_ok of every returned recipe, valid or not; blind indexing; the
 code before the repair c9128f1 is refuted on the streams of ">" and "\\").
 Correspondence L-rec: harness/src/bin/analysis.rs dumps the real PullParser events + the recipe of
 the real CooklangParser::parse; runner/analysis_main.ml runs the extracted model on the dumped
-events and prints the same structural dump.  Monitor: the statement of C06 evaluated in Rust on
+events and prints the same dump: the structure and, since the model's recipe keeps them ([qi_value]), the value
+of every quantity of an ingredient, a cookware item or a timer (numbers exactly, as m * 2^e).  Monitor: the statement of C06 evaluated in Rust on
 the implementation's recipe (valid or not); its verdict is also compared, recipe by recipe, with the
 extracted decision procedure recipe_ok_b/valid_tbl_b that Proofs/AnalysisProofs.v proves equivalent to the
 Coq statement."""
 import itertools
 import os
 import random
+import re
 
 from vlib import common
 from vlib.common import hx, unhx
@@ -30,7 +33,12 @@ WITNESSES = [">", "\\", "> \n\nstep", "a\n\n\\", "= A\n\n>\n", ">> [mode]: text\
              ">> [duplicate]: reference\n\n#cast iron skillet|skillet{}\n\n#skillet{}",
              # control: the alias is also the name of another definition, which is the one referenced
              "@wine{}\n\n@white wine|wine{}\n\n@&wine{} @&White Wine{}",
-             "@white wine|wine{}\n\n@wine{}\n\n@&wine{} @&white wine{}"]
+             "@white wine|wine{}\n\n@wine{}\n\n@&wine{} @&white wine{}",
+             # quantity values: the recipe holds what the event held - decimals, fractions, ranges (also on cookware
+             # and timers), texts, locked ones, a reference with its own quantity, a non-finite literal
+             "@a{0.1%g} @b{1 1/2%cup} @c{=2-3.5} @d{a few} #pot{2-3} #pan{=1/3} #lid{some} ~{1.5-2%h} ~t{0.25%min}",
+             "@flour{100%g}\n\n@&flour{12.5%g} @&flour{1/3-2/3%kg} #pot{1}\n\n#&pot{2-4}",
+             "@a{1" + "0" * 330 + "} #p{2-1" + "0" * 330 + "}"]
 
 
 def enum_strings(alpha, maxlen):
@@ -201,14 +209,15 @@ def gen_clean(rng):
                 if r < 0.2:
                     toks.append(rng.choice(["mix", "heat", "then add", "for a while", "and"]))
                 elif r < 0.3:
-                    toks.append(rng.choice(["~{5%min}", "~rest{1%h}", "~bake{20%min}", "~wait{2%min}"]))
+                    toks.append(rng.choice(["~{5%min}", "~rest{1%h}", "~bake{20%min}", "~wait{2%min}", "~{5-10%min}", "~rest{1.5%h}",
+                                            "~proof{1 1/2%h}"]))
                 elif r < 0.45:
                     base, forms = rng.choice(pots)
                     if base in seen_c and rng.random() < 0.75:
                         toks.append("#&" + rng.choice(forms) + "{}")
                     else:
                         seen_c.append(base)
-                        toks.append("#" + forms[0] + rng.choice(["{}", "{1}", "{2}"]))
+                        toks.append("#" + forms[0] + rng.choice(["{}", "{1}", "{2}", "{2-3}", "{1/2}", "{=2}", "{a few}"]))
                 elif r < 0.6 and (n_steps > 0 or si > 0):
                     if si > 0 and rng.random() < 0.4:
                         tgt = rng.choice(["=%d" % rng.randint(1, si + 1), "=~%d" % rng.randint(1, si + 1)])
@@ -218,12 +227,13 @@ def gen_clean(rng):
                 else:
                     base, forms = rng.choice(ings)
                     if base in seen_i and rng.random() < 0.75:
-                        toks.append("@&" + rng.choice(forms) + rng.choice(["{}", "{}", "{1%g}", "{2}"]))
+                        toks.append("@&" + rng.choice(forms) + rng.choice(["{}", "{}", "{1%g}", "{2}", "{0.1-0.3%g}", "{1/3}"]))
                     elif base in seen_i and rng.random() < 0.5:
                         toks.append("@" + rng.choice(forms) + "{}")      # implicit reference under the modes
                     else:
                         seen_i.append(base)
-                        toks.append("@" + forms[0] + rng.choice(["{}", "{100%g}", "{1%cup}", "{2}", "{a bit}"]))
+                        toks.append("@" + forms[0] + rng.choice(["{}", "{100%g}", "{1%cup}", "{2}", "{a bit}", "{0.75%kg}",
+                                                                 "{1 1/2%cup}", "{2-3}", "{=12.5%g}"]))
             out.append(" ".join(toks))
             n_steps += 1
     return "\n\n".join(out) + rng.choice(["", "\n"])
@@ -291,9 +301,30 @@ def split_fields(line):
     return d
 
 
+NONFINITE = re.compile(r":(?:nan|inf|-inf):0(?=[: ]|$)")
+
+
 def norm_r(r):
-    """panic sites are model detail: compare `panic` only."""
-    return "panic" if r.startswith("panic") else r
+    """panic sites are model detail: compare `panic` only.  The value of every quantity is part of the line
+    (`n:<m>:<e>`, `r:<m>:<e>:<m>:<e>`, `t:<hex>`; numbers exactly, m * 2^e with m odd on both sides: the model
+    is run on the implementation's own events, whose f64 values it reads as exact rationals, and the collector
+    copies them - so equal tokens, no tolerance).  A non-finite f64 (a literal of 309+ digits) has no rational:
+    runner/analysis_main.ml reads it as 0 in the events, so it is compared as `0:0` here."""
+    if r.startswith("panic"):
+        return "panic"
+    return NONFINITE.sub(":0:0", r) if ("nan" in r or "inf" in r) else r
+
+
+QTOK = re.compile(r"(?<= )[tn][fl][^ :]*:([nrt]):")
+
+
+def count_values(st, r):
+    """how many quantity values of which kind the compared recipes held (evidence only)"""
+    for m in QTOK.finditer(r):
+        k = {"n": "number", "r": "range", "t": "text"}[m.group(1)]
+        st["values_compared"][k] = st["values_compared"].get(k, 0) + 1
+    if "nan" in r or "inf" in r:
+        st["values_compared"]["non_finite"] = st["values_compared"].get("non_finite", 0) + len(NONFINITE.findall(r))
 
 
 def check_iq_oracle(st, orc, case):
@@ -387,6 +418,7 @@ def check_batch(rep, st, cases, bins, runner, label):
                                                 "what": "the real parser emitted an event sequence outside "
                                                         "parser_shaped (hypothesis of C06_reachable)",
                                                 "events": ref[i]["EV"][:600]}))
+            count_values(st, ref[i]["R"])
             if norm_r(mi["R"]) != norm_r(ref[i]["R"]):
                 st["disagreements"].append((s, {"input": s, "input_hex": hx(s), "extensions": e, "converter": c,
                                                 "mutation": m, "impl": ref[i]["R"][:800], "model": mi["R"][:800]}))
@@ -468,7 +500,7 @@ def new_stats():
             "parser_panics_debug": 0, "parser_panics_release": 0, "parser_panic_samples": [],
             "mutated": 0, "mutated_collector_panics": 0, "oracle_insane": 0,
             "monitor_fired_outside_hypothesis": 0, "monitor_vs_decider": 0, "decider_rejects": 0,
-            "nontrivial": set(), "iq_splits": 0,
+            "nontrivial": set(), "iq_splits": 0, "values_compared": {},
             "debug_release_diff": 0, "debug_release_samples": [], "samples": []}
 
 
@@ -565,6 +597,10 @@ def run(rep, tier, seed):
         "debug_release_differences": st["debug_release_diff"], "debug_release_samples": st["debug_release_samples"],
         "unicase_not_an_equivalence": st["oracle_insane"],
         "inline_quantity_splits_checked_to_shrink": st["iq_splits"],
+        "quantity_values_compared": st["values_compared"],
+        "quantity_values_rule": "every quantity of an ingredient, a cookware item or a timer of the compared recipes is "
+                                "compared with the model's [qi_value] as part of the R line: numbers and both ends of a "
+                                "range exactly (m * 2^e), texts as bytes; inline quantities are counted only",
         "correspondence_disagreements": len(st["disagreements"]), "monitor_violations": len(hits),
         "samples": st["samples"],
     })
